@@ -53,6 +53,14 @@ def inject : Fault → ClassSrc → ClassSrc
   | .unknownAttr n a, src => addEntry src n (.attr a)
   | .bareType n a, src => addEntry src n (.attr a)
 
+/-- the values the statement calls "a bare non-typedpy type": a class, a parameterised generic, or a
+    PEP 604 union of such -/
+def nonTypedpyType : AttrVal → Bool
+  | .bareType => true
+  | .generic => true
+  | .union => true
+  | _ => false
+
 def isError {α} (r : R α) : Bool :=
   match r with
   | .ok _ => false
@@ -73,14 +81,16 @@ def Fault.applies (O : Oracles) (w : World) (src : ClassSrc) : Fault → Bool
   | .keysOfMissing _ _ n _ _ => !((allFieldsOf w src).map (·.1)).contains n
   | .unknownAttr n a =>
     w.blockConsts && blockedAttr a && !knownAttrs.contains n && !isDunder n && !isCustomAttr n
-  | .bareType n a => w.blockNonTypedpy && isBareType a && !isSunder n && !isDunder n
+  | .bareType n a => w.blockNonTypedpy && nonTypedpyType a && !isSunder n && !isDunder n
 
-/-- the two regions in which the code today lets the fault through (known findings):
-    a falsy `default=` is never validated (`if default:` in `Field.__init__`), and a truthy valid
-    mutable literal given to a Field-class annotation is not refused -/
+/-- the regions in which the code today lets the fault through (known findings):
+    a falsy `default=` is never validated (`if default:` in `Field.__init__`), a truthy valid
+    mutable literal given to a Field-class annotation is not refused, and a PEP 604 union of bare
+    types is neither a `type` nor a generic for the non-typedpy-assignment guard -/
 def Fault.knownHole (O : Oracles) : Fault → Bool
   | .defaultKw _ _ v => !v.truthy
   | .mutableClassForm _ d v => pyTruthy v && !isError (validate O d v)
+  | .bareType _ a => a == .union
   | _ => false
 
 end Typedpy
